@@ -61,6 +61,11 @@ KINDS = {
     "nullable-enum": ({"type": "string", "enum": ["x", "y"], "nullable": True}, None, ["x", None, "y"]),
     "nullable-inline-object": ({"type": "object", "nullable": True, "properties": {"q": {"type": "integer"}}}, None, [{"q": 1}, None, {}]),
     "nullable-array": ({"type": "array", "nullable": True, "items": {"type": "integer"}}, None, [[1], None, []]),
+    # OpenAPI 3.1 spelling of nullability (type list) on inline enums / objects / arrays
+    "enum-type-list-null": ({"type": ["string", "null"], "enum": ["x", "y", None]}, None, ["x", None, "y"]),
+    "object-type-list-null": ({"type": ["object", "null"], "properties": {"q": {"type": "integer"}}}, None, [{"q": 1}, None, {}]),
+    "array-type-list-null": ({"type": ["array", "null"], "items": {"type": "string"}}, None, [["a"], None, []]),
+    "integer-type-list-null": ({"type": ["integer", "null"]}, None, [3, None, 0]),
 }
 NAMED_ENUMS = {
     "StateEnum": {"type": "string", "enum": ["inProgress", "done-now", "on hold", "UPPER", "snake_case"], "default": "inProgress"},
